@@ -48,11 +48,11 @@ OpJ(o) == CASE o.name = "points" -> [name |-> "points", r |-> o.r,
             [] o.name = "mask" -> [name |-> "mask", tl |-> SetToSeq(o.tl),
                                    masks |-> SetToSeq({ <<t, o.masks[t].shape, SetToSeq(o.masks[t].zero)>> : t \in DOMAIN o.masks })]
             [] OTHER -> o
-EmitCase == \/ ~done
-            \/ PrintT(<<"CASE", ToJson([id |-> Case.id, ps |-> PJ(Case.ps),
-                                        dims |-> SetToSeq({ <<t, Case.dims[t][1], Case.dims[t][2], Case.dims[t][3]>> : t \in DOMAIN Case.dims }),
-                                        op |-> OpJ(Case.op)])>>)
-EmitBoth == EmitCase /\ Emit
+CaseJ == [id |-> Case.id, ps |-> PJ(Case.ps),
+          dims |-> SetToSeq({ <<t, Case.dims[t][1], Case.dims[t][2], Case.dims[t][3]>> : t \in DOMAIN Case.dims }),
+          op |-> OpJ(Case.op)]
+EmitBoth == \/ ~done
+            \/ PrintT(<<"SMALL", ToJson([case |-> CaseJ, ps |-> PJ(res.ps), status |-> res.status, amb |-> res.amb])>>)
 
 \* ---- file scope
 PsOf(x) == [k \in DOMAIN x |-> P(x[k][1], x[k][2], <<x[k][3], x[k][4], x[k][5]>>, <<x[k][6], x[k][7], x[k][8]>>)]
